@@ -376,7 +376,9 @@ module Make (I : INST) = struct
             | None -> "-"
             | Some f -> cat "" (LL.map (function Some true -> "1" | Some false -> "0" | None -> "x")
                                   (f (node_of 0) (node_of 1) (bytes "plain") (bytes "{\"k\": \"v\"}") s))) in
-        Printf.sprintf "d=%s core=%s red=%s eqp=%s pv=%s tr=%s c=%s v=%s x=%s k=%s pb=%s" (sn s.McSys.st_depth) (fnv (c_state_core s))
+        let cr = cat "," (LL.map (fun (n, _) -> sn n) (LL.filter (fun (_, ns) -> ns.McSys.ns_crashed) s.McSys.st_nodes)) in
+        Printf.sprintf "d=%s cr=[%s] ne=%d core=%s red=%s eqp=%s pv=%s tr=%s c=%s v=%s x=%s k=%s pb=%s" (sn s.McSys.st_depth)
+          cr (LL.length (I.live s.McSys.st_events)) (fnv (c_state_core s))
           (fnv (c_state_red s)) (fnv (c_state_eqp s)) (fnv (c_state_pv s)) (fnv (c_trace s.McSys.st_trace)) (b01 (e_collect ps s)) (verdict_text ps s) x k pb in
     let report res =
       match res with
